@@ -867,7 +867,12 @@ class Footnote(BlockToken):
     def read(cls, lines):
         line_buffer = []
         next_line = lines.peek()
+        # definitions are read from what would otherwise be a paragraph: a line on which
+        # another block interrupts a paragraph ends them as well (e.g. within a multi-line title)
+        breaking_tokens = [t for t in _token_types if hasattr(t, 'check_interrupts_paragraph') and not t == ThematicBreak]
         while next_line is not None and next_line.strip() != '':
+            if line_buffer and any(token_type.check_interrupts_paragraph(lines) for token_type in breaking_tokens):
+                break
             line_buffer.append(next(lines))
             next_line = lines.peek()
         string = ''.join(line_buffer)
